@@ -221,6 +221,7 @@ class NpSym:
                             return TORCH
                         if al.name in ("math", "numpy"):
                             return TorchMarker(al.name)
+                        return TorchMarker(al.name)        # any other library module: an opaque marker (its functions fail closed unless the rule provides a stand-in)
         raise AnalysisError(f"npsym: global `{name}` of {mod.rel} not resolved")
 
     def _resolve_import(self, mod, st):
@@ -561,7 +562,18 @@ class _Frame:
             self.env[t.id] = v
         elif isinstance(t, (ast.Tuple, ast.List)):
             vs = self.iterate(v, t)
-            if any(isinstance(e, ast.Starred) for e in t.elts):
+            stars = [i for i, e in enumerate(t.elts) if isinstance(e, ast.Starred)]
+            if len(stars) == 1 and len(vs) >= len(t.elts) - 1:
+                k = stars[0]
+                tail = len(t.elts) - 1 - k
+                mid = list(vs[k:len(vs) - tail])
+                for e, x in zip(t.elts[:k], vs[:k]):
+                    self.assign(e, x)
+                self.assign(t.elts[k].value, mid)
+                for e, x in zip(t.elts[k + 1:], vs[len(vs) - tail:] if tail else []):
+                    self.assign(e, x)
+                return
+            if stars:
                 raise AnalysisError("npsym: starred assignment")
             if len(vs) != len(t.elts):
                 raise AnalysisError(f"npsym: cannot unpack {len(vs)} values into {len(t.elts)} targets ({norm(t)[:50]})")
@@ -760,6 +772,8 @@ class _Frame:
                 return BUILTINS[e.id]
             if e.id == "torch":
                 return TORCH
+            if e.id == "__file__":
+                return "<file>"
             return I.global_value(self.mod, e.id)
         if isinstance(e, ast.Attribute):
             return self.attribute(e)
@@ -1128,6 +1142,8 @@ class _Frame:
     def torch_call(self, name, args, kwargs, e):
         np, sp, I = self.np, self.sp, self.I
         n = name.split(".", 1)[1] if "." in name else name
+        if name.startswith("os.path."):
+            return "<path>"          # path arithmetic has no bearing on what is computed
         if name.startswith("math."):
             fn = {"sqrt": sp.sqrt, "exp": sp.exp, "log": sp.log, "cos": sp.cos, "sin": sp.sin, "fabs": sp.Abs}.get(n)
             if fn:
